@@ -33,6 +33,11 @@ S  oracle on generated conservative models (no damping / frictionloss / actuator
      - -d energy[0]/dq (central differences along mj_integratePos) == qfrc_passive - qfrc_bias at rest.
    Ladders on which a sprung ball / free joint comes within 0.14 rad of a half turn from its reference (the kink of the
    shortest-rotation potential; reported by the harness as "maxang") are excluded from the order / convergence criteria.
+     - staged / skipped pipeline calls on an already used mjData (`staged`: random sequences of mj_forwardSkip with skipstage
+       NONE / POS / VEL and skipsensor 0 / 1, mj_inverseSkip NONE / POS, mj_step1, mj_step, interleaved with velocity-only edits
+       (incl. zeroing qvel) and position edits): after every call that runs the velocity stage energy[1] == 0.5 v' M v (current qvel,
+       mj_fullM of the same data, exact arithmetic), and whenever the calls made since the last edit cover the edited stage both
+       energies equal those of a fresh mjData after mj_forward at the same state (lazy-evaluation flags must not leave stale values).
    Not covered: flex edge springs (no flex in the generator), sleeping bodies (mjENBL_SLEEP off).
 """
 import json
@@ -221,6 +226,60 @@ WITNESS_LINES = ["option timestep 0.002", "option integrator %d" % E("mjINT_RK4"
 WITNESS_STATE = ([1.0, 0.0, 0.0, 0.0], [2.0, -3.0, 1.5])
 
 
+# staged pipeline calls: name -> (runs position stage, runs velocity stage)
+STAGED_CALLS = {"F0": (1, 1), "F1": (1, 1), "I0": (1, 1), "T": (1, 1), "P0": (0, 1), "P1": (0, 1), "J0": (0, 1), "A0": (0, 0), "S": None}
+STAGED_FIRST = ("F0", "F0", "F1", "S", "T", "I0")
+STAGED_NEXT = (("V", 0.34), ("Q", 0.08), ("P0", 0.2), ("P1", 0.06), ("J0", 0.06), ("F0", 0.06), ("F1", 0.02), ("I0", 0.04), ("T", 0.04),
+               ("A0", 0.05), ("S", 0.05))
+
+
+def gen_staged(rng, nv, vscale, hist):
+    """one `staged` op: a first full call on the freshly loaded state, then 6..12 items drawn from STAGED_NEXT.  Returns the op line
+    and, per pipeline call, (name, check_ke, check_fresh) derived from which stage was edited since it was last recomputed."""
+    items, toks = [rng.choice(STAGED_FIRST)], []
+    for _ in range(rng.randint(6, 12)):
+        r, acc = rng.random(), 0.0
+        for name, pr in STAGED_NEXT:
+            acc += pr
+            if r < acc:
+                break
+        items.append(name)
+    pos_dirty = vel_dirty = True
+    expect = []
+    prev = None
+    for it in items:
+        hist[it] = hist.get(it, 0) + 1
+        if prev in ("V", "Q", "VQ") and it in STAGED_CALLS:
+            hist["%s then %s" % (prev, it)] = hist.get("%s then %s" % (prev, it), 0) + 1
+        if it == "V":
+            mode = rng.random()
+            v = [0.0] * nv if mode < 0.15 else [rng.gauss(0, 1) * vscale for _ in range(nv)]
+            if mode < 0.15:
+                hist["V zero"] = hist.get("V zero", 0) + 1
+            toks += ["V"] + [repr(float(x)) for x in v]
+            vel_dirty = True
+            prev = "VQ" if prev in ("Q", "VQ") else "V"
+            continue
+        if it == "Q":
+            toks += ["Q"] + [repr(rng.gauss(0, 0.05)) for _ in range(nv)]
+            pos_dirty = True
+            prev = "VQ" if prev in ("V", "VQ") else "Q"
+            continue
+        prev = it
+        toks.append(it)
+        st = STAGED_CALLS[it]
+        if st is None:              # mj_step: energies are those of an intermediate (pre-step / last RK stage) state
+            pos_dirty = vel_dirty = True
+            expect.append((it, False, False))
+            continue
+        if st[0]:
+            pos_dirty = False
+        if st[1]:
+            vel_dirty = False
+        expect.append((it, not vel_dirty, not vel_dirty and not pos_dirty))
+    return "staged " + " ".join(toks), expect
+
+
 def gen_script(ctx, nmodels, nstatic):
     rng = ctx.rng
     script, meta = [], []
@@ -260,6 +319,9 @@ def gen_script(ctx, nmodels, nstatic):
             meta.append(("epline", info))
             script.append("gradpot 1e-6")
             meta.append(("gradpot", info))
+            op, expect = gen_staged(rng, nv, rng.choice((0.3, 1.0, 3.0)), ctx.extra.setdefault("staged_call_histogram", {}))
+            script.append(op)
+            meta.append(("staged", dict(info, op=op, expect=expect)))
             if static:
                 continue
             for k in range(NLADDER):
@@ -330,6 +392,8 @@ KE_REL = 1e-12
 CUT_LOCUS = 3.0           # rad; a sprung ball / free joint that gets this close to a half turn from its reference is at the kink
                           # of the shortest-rotation potential (pi): no Runge-Kutta order can be observed there, the ladder is skipped
 GRAD_REL = 1e-6
+STAGED_REL = 1e-11        # used vs fresh mjData at the same state (same code on the same inputs: observed 0 or last-ulp differences
+                          # from the in-place quaternion renormalisation of qpos); potential energy compared relative to |E| + 10
 
 
 def run(ctx):
@@ -412,6 +476,35 @@ def run(ctx):
                          dict(rp, op="gradpot 1e-6"))
                     break
             ctx.count(("gradpot", info["model"], info["state"], ctx.seed))
+        elif kind == "staged":
+            recs = json.loads(o)
+            if len(recs) != len(info["expect"]):
+                fail("c08:harness-crash", "staged op returned %d records for %d calls" % (len(recs), len(info["expect"])), dict(rp, op=info["op"]))
+                continue
+            for ci, (rec, (name, chk_ke, chk_fresh)) in enumerate(zip(recs, info["expect"])):
+                vals = [rec["e0"], rec["e1"], rec["r0"], rec["r1"]] + rec["qvel"] + rec["fullM"]
+                if rec["c"] != name or any(x is None or not math.isfinite(x) for x in vals):
+                    continue          # diverged / reset state: nothing to compare
+                ke, mag = exact_ke(rec["fullM"], rec["qvel"])
+                if chk_ke:
+                    stats["staged_ke_checked"] = stats.get("staged_ke_checked", 0) + 1
+                    rel = abs(ke - rec["e1"]) / max(mag, 1e-300)
+                    stats["max_staged_ke_rel"] = max(stats.get("max_staged_ke_rel", 0.0), rel)
+                    if rel > KE_REL:
+                        fail("c08:staged-kinetic-energy", "after call #%d (%s) of a staged sequence on a used mjData energy[1] = %r but 0.5 v'Mv "
+                             "(current qvel, mj_fullM, exact arithmetic) = %r" % (ci, name, rec["e1"], ke), dict(rp, op=info["op"], call=ci))
+                        break
+                if chk_fresh:
+                    stats["staged_fresh_checked"] = stats.get("staged_fresh_checked", 0) + 1
+                    d0 = abs(rec["e0"] - rec["r0"]) / (max(abs(rec["e0"]), abs(rec["r0"])) + 10.0)
+                    d1 = abs(rec["e1"] - rec["r1"]) / max(mag, abs(rec["r1"]), 1e-300)
+                    stats["max_staged_fresh_rel"] = max(stats.get("max_staged_fresh_rel", 0.0), d0, d1)
+                    if d0 > STAGED_REL or d1 > STAGED_REL:
+                        fail("c08:staged-energy-vs-fresh", "after call #%d (%s) of a staged sequence on a used mjData energy = (%r, %r) but a fresh "
+                             "mjData after mj_forward at the same qpos, qvel reports (%r, %r)" % (ci, name, rec["e0"], rec["e1"], rec["r0"], rec["r1"]),
+                             dict(rp, op=info["op"], call=ci))
+                        break
+            ctx.count(("staged", info["model"], info["state"], ctx.seed))
         elif kind == "drift":
             d = json.loads(o)
             stats["drift_runs"] += 1
@@ -585,7 +678,7 @@ def run(ctx):
     stats["ep_states"] = len(eplines)
     ctx.extra["oracle_stats"] = stats
     ctx.extra["oracle_failures"] = fails
-    ctx.extra["thresholds"] = {"order_median_min": ORDER_MIN, "order_case_min": ORDER_CASE_MIN, "order_median_min_quat": ORDER_MIN_QUAT, "order_case_min_quat": ORDER_CASE_MIN_QUAT, "finest_rel": FINEST_REL, "momentum_rel": MOM_REL, "convergence_ratio": 0.3, "ke_rel": KE_REL, "grad_rel": GRAD_REL, "cut_locus_rad": CUT_LOCUS}
+    ctx.extra["thresholds"] = {"order_median_min": ORDER_MIN, "order_case_min": ORDER_CASE_MIN, "order_median_min_quat": ORDER_MIN_QUAT, "order_case_min_quat": ORDER_CASE_MIN_QUAT, "finest_rel": FINEST_REL, "momentum_rel": MOM_REL, "convergence_ratio": 0.3, "ke_rel": KE_REL, "grad_rel": GRAD_REL, "staged_rel": STAGED_REL, "cut_locus_rad": CUT_LOCUS}
     ctx.assumptions.append("C08: drift order and momentum conservation are sampled on generated models (classical RK/Newton-Euler theorems not formalised)")
     if kelines:
         ctx.sample({"ke_line": kelines[0][:160] + " ...", "energy1_bits": ke_expect[0]})
